@@ -19,6 +19,11 @@ LEVEL = "model_checking"
 INPUTS = [(-1, 0), (-1, 1), (-1, 2), (2, 0), (2, 1), (2, 2)]
 
 
+def VARGS(prog):
+    """the extra vector parameter v = [5, 7, 11] of programs that subscript it"""
+    return [np.array([5, 7, 11], dtype=np.int64)] if scriptgen.uses(prog, "idx") else []
+
+
 def _to_list(r):
     if isinstance(r, (tuple, list)):
         return [np.asarray(getattr(x, "value", x)) for x in r]
@@ -50,7 +55,7 @@ def run_program(arg):
             res.append("SKIP")
             continue
         try:
-            r = f(np.array(a, dtype=np.int64), np.array(n, dtype=np.int64))
+            r = f(np.array(a, dtype=np.int64), np.array(n, dtype=np.int64), *VARGS(prog))
             res.append([x.tolist() if x.dtype == np.int64 and x.shape == () else f"BAD dtype={x.dtype} shape={x.shape} val={x.tolist()}" for x in _to_list(r)])
         except Exception as e:
             res.append(f"ERR {type(e).__name__}: {str(e)[:100]}")
@@ -72,7 +77,7 @@ def run_program(arg):
                 res.append("SKIP")
                 continue
             try:
-                feeds = dict(zip(names, [np.array(a, dtype=np.int64), np.array(n, dtype=np.int64)]))
+                feeds = dict(zip(names, [np.array(a, dtype=np.int64), np.array(n, dtype=np.int64)] + VARGS(prog)))
                 r = sess.run(None, feeds)
                 res.append([x.tolist() if x.dtype == np.int64 and x.shape == () else f"BAD dtype={x.dtype} shape={x.shape} val={x.tolist()}" for x in r])
             except Exception as e:
@@ -186,9 +191,9 @@ def judge(ctx, s, r):
 
 def run(ctx: core.Ctx):
     if ctx.quick:
-        states = scriptgen.tlc_programs(ctx, ["Script_n3.cfg", "Script_loops4t.cfg"], "Script_sim.cfg", sim_num=8000, sim_depth=16)
+        states = scriptgen.tlc_programs(ctx, ["Script_n3.cfg", "Script_loops4t.cfg", "Script_ops3.cfg"], "Script_sim.cfg", sim_num=8000, sim_depth=16)
     else:
-        states = scriptgen.tlc_programs(ctx, ["Script_n4.cfg", "Script_loops4t.cfg", "Script_iffor4t.cfg"], "Script_sim.cfg", sim_num=60000, sim_depth=18)
+        states = scriptgen.tlc_programs(ctx, ["Script_n4.cfg", "Script_loops4t.cfg", "Script_iffor4t.cfg", "Script_ops3.cfg"], "Script_sim.cfg", sim_num=60000, sim_depth=18)
     vac = core.run_tlc("Script", "Script_vacuity.cfg", timeout=900)
     if vac.ok:
         raise core.MachineryError("vacuity: no accepted program with an if inside a for loop is reachable")
